@@ -214,8 +214,13 @@ class MultiContext(ContextBase):
         self._context_list[0][name] = value
 
     def __delitem__(self, name):
+        found = False
         for context in self._context_list:
-            del context[name]
+            if name in context:
+                del context[name]
+                found = True
+        if not found:
+            raise KeyError(name)
 
     def create_child_context(self):
         return Context(self)
